@@ -389,8 +389,22 @@ func (g *gl) composite(x *ast.CompositeLit, bs *[]glBind) string {
 		}
 		return "([" + strings.Join(xs, ", ") + "] : Bytes)"
 	}
-	if n, ok := t.(*types.Named); ok {
-		if _, ok := n.Underlying().(*types.Struct); ok && lt != "" {
+	if strings.HasPrefix(lt, "(List ") { // []T{a, b}: a list of values of the fragment
+		var xs []string
+		for _, el := range x.Elts {
+			if _, ok := el.(*ast.KeyValueExpr); ok {
+				g.bad(x.Pos(), "keyed slice literal")
+				continue
+			}
+			xs = append(xs, g.expr(el, bs))
+		}
+		return "([" + strings.Join(xs, ", ") + "] : " + lt[1:len(lt)-1] + ")"
+	}
+	if p, ok := t.(*types.Pointer); ok {
+		t = p.Elem()
+	}
+	{
+		if _, ok := t.Underlying().(*types.Struct); ok && lt != "" {
 			var fs []string
 			for _, el := range x.Elts {
 				kv, ok := el.(*ast.KeyValueExpr)
@@ -398,7 +412,18 @@ func (g *gl) composite(x *ast.CompositeLit, bs *[]glBind) string {
 					g.bad(x.Pos(), "positional struct literal")
 					continue
 				}
-				fs = append(fs, fmt.Sprintf("%s := %s", glField(kv.Key.(*ast.Ident).Name), g.expr(kv.Value, bs)))
+				var ft types.Type
+				st := t.Underlying().(*types.Struct)
+				for i := 0; i < st.NumFields(); i++ {
+					if st.Field(i).Name() == kv.Key.(*ast.Ident).Name {
+						ft = st.Field(i).Type()
+					}
+				}
+				if ft == nil || g.leanType(ft) == "" {
+					g.bad(kv.Pos(), "field %s of a literal has a type outside the fragment", kv.Key.(*ast.Ident).Name)
+					continue
+				}
+				fs = append(fs, fmt.Sprintf("%s := %s", glField(kv.Key.(*ast.Ident).Name), g.valueFor(kv.Value, ft, bs)))
 			}
 			if len(fs) == 0 {
 				return lt + ".zero"
